@@ -17,6 +17,15 @@ def plan_roundtrip(pid, rng, quick):
     # a few bigger batches (more parents per table, id deltas > 1 byte)
     for i in range(4 if quick else 40):
         plan.append(otap.rand_stream(rng, "rt-large/%s/%d" % (signal, i), signal, [pid], nb=2, size="large"))
+    # big but valid batches (tens of thousands of attribute-bearing parents, still <= 65,535), first on the stream
+    # (schema updates rebuild the record several times) and after a warm-up
+    withs = {"traces": ["spanattr", "event", "link"], "logs": ["logattr"], "metrics": ["dpattr"]}[signal]
+    for i in range(2 if quick else 10):
+        n_ = rng.choice([33000, 40000, 65535])
+        big = {"gen": "parents", "n": n_, "nres": rng.choice([1, 3]), "with": rng.choice(withs), "nodump": True}
+        bs = [big] if i % 2 == 0 else [otap.rand_batch(rng, rich=2), big]
+        bs.append(otap.rand_batch(rng, rich=1))
+        plan.append({"id": "rt-big/%s/%d" % (signal, i), "signal": signal, "opts": {}, "batches": bs, "props": [pid], "mode": 0, "nowire": True})
     # a refused batch (more resources than 16-bit ids) must not disturb the batches that follow it
     for i in range(3 if quick else 12):
         bs = [otap.rand_batch(rng, rich=2), {"gen": "parents", "n": rng.choice([65536, 65540]), "nres": 70000, "with": "resattr", "nodump": True},
@@ -187,16 +196,17 @@ def plan_c04(pid, rng, quick):
         plan.append(st)
     # index-width state machine under the dictionary sub-lattice: ramps crossing 255 / 65535 / the limit
     dl = [("8", 255), ("16", 65535), ("", 65535), ("32", 65535), ("64", 65535), ("none", 300)]
-    for i in range(20 if quick else 240):
+    for i in range(54 if quick else 600):
         signal = rng.choice(["traces", "logs", "metrics"])
         d, cap = rng.choice(dl)
-        if cap > 1000 and quick and rng.random() < 0.75:
+        if cap > 1000 and quick and rng.random() < 0.85:
             d, cap = "8", 255
         o = {"dict": d}
-        t = rng.choice([None, 0.0, 0.3, 1.0, -1.0])
+        regime = rng.choice(["overflow", "reset", "reset", "cross"])
+        t = rng.choice([None, 0.3, 1.0, -1.0] if regime == "reset" else [None, 0.0, 0.3, 1.0, -1.0])
         if t is not None:
             o["thr"] = t
-        bs = ramp_history(rng, signal, rng.choice(["overflow", "reset", "cross"]), cap, rng.choice([4, 8]))
+        bs = ramp_history(rng, signal, regime, cap, rng.choice([4, 8]))
         for b in bs:
             if b["n"] <= 600:
                 b["nodump"] = False
